@@ -361,13 +361,19 @@ def gadgetOf (d : Def) (B : Bnds) (o : Opts) (n : Nat) : Out :=
   | .count as => gCount d.res as B n
   | _ => { unmodelled := true }
 
+def isBin01 (i : VarInfo) : Bool := decide (i = VarInfo.binary)
+
 /-- lowering of the rows a gadget emits when only linear rows are accepted: indicators → big-M rows,
 nested linear functional constraints → their equality row -/
 def lowerCon (B : Bnds) (o : Opts) : Con → Out
-  | .indLin b bv .le body rhs => gIndLE b bv body rhs B o
-  | .indLin b bv .ge body rhs => gIndGE b bv body rhs B o
-  | .indLin b bv .eq body rhs => gIndEQ b bv body rhs B o
-  | .func r _ (.affine body c) => gLFC r body c
+  | .indLin b bv k body rhs =>
+    if decide (bv ≤ 1) && isBin01 (B b) then
+      (match k with
+       | .le => gIndLE b bv body rhs B o
+       | .ge => gIndGE b bv body rhs B o
+       | .eq => gIndEQ b bv body rhs B o)
+    else { cons := [.indLin b bv k body rhs] }
+  | .func r .none (.affine body c) => gLFC r body c
   | k => { cons := [k] }
 
 def lowerCons (B : Bnds) (o : Opts) : List Con → Out
@@ -390,6 +396,7 @@ structure Block where
   d : Def
   vars : List VarInfo      -- auxiliary variables created
   cons : List Con          -- delivered rows
+  raw : List Con := []     -- the rows the gadget emitted (before lowering)
   lo : Nat
   native : Bool            -- delivered as the functional constraint itself
   refusal : Option Refusal := none
@@ -410,14 +417,14 @@ def convDefs (cfg : Cfg) : List Def → Bnds → Nat → List Block
       let g := gadgetOf d B cfg.opts n
       let B' := extB B n g.vars
       let low : Out := if cfg.acc = .linear then lowerCons B' cfg.opts g.cons else { cons := g.cons }
-      { d := d, vars := g.vars, cons := low.cons, lo := n, native := false,
+      { d := d, vars := g.vars, cons := low.cons, raw := g.cons, lo := n, native := false,
         refusal := (match g.refusal with | some r => some r | none => low.refusal),
         unmodelled := g.unmodelled || low.unmodelled } :: convDefs cfg t B' (n + g.vars.length)
 
 /-- stable insertion sort by keeper rank -/
 def insRank (d : Def) : List Def → List Def
   | [] => [d]
-  | e :: t => if d.f.rank < e.f.rank then d :: e :: t else e :: insRank d t
+  | e :: t => if d.f.rank ≤ e.f.rank then d :: e :: t else e :: insRank d t
 def sortRank (l : List Def) : List Def := l.foldr insRank []
 
 /-- output of the reference converter -/
@@ -478,8 +485,21 @@ def shortcutDef (B : Bnds) (defs : List Def) (d : Def) : Bool :=
     (k == .eq && (match body with | [(_, v)] => (B v).isBinary | _ => false))
   | _ => false
 
-def ConvOut.shortcut (o : ConvOut) : Bool :=
-  o.defs.any (shortcutDef o.B o.defs) || o.blocks.any (·.unmodelled)
+/-- further paths of the real converter not mirrored yet (see design notes, round 5): downward bound propagation from logical rows
+(`FixAsTrue` + `PropagateResult` through not/and/or, removal of a fixed-true `and`), the unary-encoding treatment of `var == const`
+(`ConvertMaps`), results whose created bounds are a point (`MakeFixedVar` instead of a definition), single-term algebraic rows -/
+def ConvOut.shortcut2 (o : ConvOut) (linear : Bool) : Bool :=
+  (linear && !o.fixTrue.isEmpty) ||
+  o.fixTrue.any (fun v => match defOf o.defs v with
+    | some ⟨_, _, Fun.and _⟩ => true | some ⟨_, _, Fun.or _⟩ => true | some ⟨_, _, Fun.not _⟩ => true | _ => false) ||
+  o.defs.any (fun d => match d.f with
+    | .condLin .eq [(_, v)] _ => (o.B v).isInt
+    | .affine [] _ => false
+    | f => (resBnd o.B f).isFixed) ||
+  o.roots.any (fun r => decide (r.body.length ≤ 1) && !(r.lb == some 1 && r.ub == none))
+
+def ConvOut.shortcut (o : ConvOut) (linear : Bool := false) : Bool :=
+  o.defs.any (shortcutDef o.B o.defs) || o.blocks.any (·.unmodelled) || o.shortcut2 linear
 
 def ConvOut.refusal (o : ConvOut) : Option Refusal :=
   (o.blocks.find? (fun b => b.refusal.isSome)).bind (·.refusal)
@@ -492,8 +512,6 @@ def finiteVI (i : VarInfo) : Bool :=
 
 
 /-! ## decidable well-formedness checks of the converter's own output (membership in the fragment) -/
-
-def isBin01 (i : VarInfo) : Bool := decide (i = VarInfo.binary)
 
 /-- result bounds as created, fragment type, logical arguments binary -/
 def typedDef (B : Bnds) (d : Def) : Bool :=
